@@ -117,13 +117,18 @@ deriving Repr, DecidableEq
 /-- the path string the operating system is asked about for a resource name -/
 def osPath (v : View) (name : Text) : Text := if v.pkg then resourceFilename v.base name else name
 
+/-- `docroot = self.docroot.rstrip('/')`; `f'{docroot}/{path}' if docroot else path` (3e07f6a: a package-root spec
+`pkg:` has an empty docroot and the resource name must stay relative) -/
+def pkgResourcePath (docroot path : Text) : Text :=
+  if rstripSlash docroot = [] then path else rstripSlash docroot ++ '/' :: path
+
 /-- `get_resource_name` from line 148 on: `segs` is `path_tuple`, `slash` is `request.path_url.endswith('/')` -/
 def resourceName (fs : Fs) (v : View) (slash : Bool) (segs : List Seg) : NameOutcome :=
   match securePath segs with
   | none => .notFound
   | some path =>
     if v.pkg then
-      let rp := rstripSlash v.docroot ++ '/' :: path
+      let rp := pkgResourcePath v.docroot path
       if fs.isDir (resourceFilename v.base rp) then
         if !slash then .redirect else .name (rstripSlash rp ++ '/' :: v.index)
       else .name rp
@@ -182,6 +187,7 @@ inductive Outcome where
   | notFound                                              -- 404
   | redirect                                              -- 301 to `path_url + '/'`
   | isADirectory (path : Text)                            -- `open(path, 'rb')` raises IsADirectoryError
+  | valueError                                            -- pkg_resources refuses a Windows-absolute resource name
   | file (path : Text) (enc : Option Enc) (vary : Bool)   -- 200, body = bytes of `path`
 deriving Repr, DecidableEq
 
@@ -192,6 +198,141 @@ def staticView (fs : Fs) (v : View) (ae : Option (List Enc)) (slash : Bool) (seg
   | .redirect => .redirect
   | .name n =>
     let files := possibleFiles fs v n
+    match findBestMatch ae files with
+    | none => .notFound
+    | some c =>
+      if fs.isDir c.path then .isADirectory c.path
+      else .file c.path c.enc (decide (files.length > 1))
+
+/-! ### asset overrides (src/pyramid/config/assets.py): what a PACKAGE-relative static view sees through
+`pkg_resources` when `config.override_asset` was used for its package
+
+`OverrideProvider.has_resource / resource_isdir / get_resource_filename` ask the `PackageOverrides` of the package
+first: its overrides most recent first, each a `DirectoryOverride` (`path` empty or ending in `/`: matches names
+that start with it, hands the rest to its source) or a `FileOverride` (matches the one name, hands `''`); the first
+source in which the thing EXISTS answers; otherwise the package itself.  Sources: a directory/file of a package
+(`PackageAssetSource.get_path` = `prefix + name`) or of the file system (`FSAssetSource.get_path` =
+`os.path.join(prefix, name.lstrip('/'))`, `prefix` for the empty name).  Filesystem-root static views never go
+through this layer. -/
+
+inductive Source where
+  | pkg (base pfx : Text)      -- PackageAssetSource: the source package's directory, the prefix
+  | fs (pfx : Text)            -- FSAssetSource
+deriving Repr, DecidableEq
+
+structure Override where
+  path : Text
+  src : Source
+deriving Repr, DecidableEq
+
+/-- `str.lstrip('/')` -/
+def lstripSlash (t : Text) : Text := t.dropWhile (· = '/')
+
+/-- `DirectoryOverride.__call__` / `FileOverride.__call__` (which one: `PackageOverrides.insert`) -/
+def Override.apply (o : Override) (name : Text) : Option (Source × Text) :=
+  if o.path = [] ∨ o.path.getLast? = some '/' then
+    if o.path.isPrefixOf name then some (o.src, name.drop o.path.length) else none
+  else if name = o.path then some (o.src, []) else none
+
+/-- the OS path a source resolves a (remaining) name to -/
+def Source.osPath : Source → Text → Text
+  | .fs pfx, rest => if rest = [] then pfx else pjoin pfx (lstripSlash rest)
+  | .pkg base pfx, rest => resourceFilename base (pfx ++ rest)
+
+/-- the first override source (most recent first) in which the name exists: its OS path -/
+def ovFirst (fs : Fs) (ovs : List Override) (name : Text) : Option Text :=
+  (ovs.filterMap fun o => o.apply name).findSome? fun sr =>
+    if fs.isThere (sr.1.osPath sr.2) then some (sr.1.osPath sr.2) else none
+
+/-- a static view together with the overrides declared for its package (most recent first) -/
+structure OvView where
+  v : View
+  ovs : List Override
+
+/-- `resource_filename(pkg, name)` -/
+def pkgFilename (fs : Fs) (w : OvView) (name : Text) : Text :=
+  (ovFirst fs w.ovs name).getD (resourceFilename w.v.base name)
+
+/-- `resource_exists(pkg, name)` -/
+def pkgExists (fs : Fs) (w : OvView) (name : Text) : Bool :=
+  (ovFirst fs w.ovs name).isSome || fs.isThere (resourceFilename w.v.base name)
+
+/-- `resource_isdir(pkg, name)` -/
+def pkgIsDir (fs : Fs) (w : OvView) (name : Text) : Bool :=
+  match ovFirst fs w.ovs name with
+  | some p => fs.isDir p
+  | none => fs.isDir (resourceFilename w.v.base name)
+
+/-- `ntpath.isabs(s)` (Python 3.12): of the first three characters, `/` read as `\`: a leading separator, or a drive
+and a root (`X:\`) -/
+def ntIsAbs (n : Text) : Bool :=
+  let s := (n.take 3).map fun c => if c = '/' then '\\' else c
+  s.head? = some '\\' || (s.drop 1).take 2 = [':', '\\']
+
+/-- `DefaultProvider._validate_resource_path` raises ValueError ("Use of .. or absolute path in a resource path is not
+allowed") for a name that is absolute for Windows but not for POSIX (a POSIX-absolute one only earns a warning) -/
+def badResName (n : Text) : Bool := (n.head? = some '\\' || ntIsAbs n) && n.head? != some '/'
+
+/-- does asking pkg_resources about `name` raise?  The overrides are walked most recent first: a filesystem source
+answers or passes on silently; a package source validates `prefix + rest` first; at the end the package itself
+validates `name`. -/
+def raisesFrom (fs : Fs) (base : Text) : List (Source × Text) → Text → Bool
+  | [], name => badResName name
+  | (.fs pfx, rest) :: more, name =>
+    if fs.isThere ((Source.fs pfx).osPath rest) then false else raisesFrom fs base more name
+  | (.pkg b pfx, rest) :: more, name =>
+    if badResName (pfx ++ rest) then true
+    else if fs.isThere ((Source.pkg b pfx).osPath rest) then false else raisesFrom fs base more name
+
+def pkgRaises (fs : Fs) (w : OvView) (name : Text) : Bool :=
+  raisesFrom fs w.v.base (w.ovs.filterMap fun o => o.apply name) name
+
+/-- `get_resource_name` with the override layer (package branch; the filesystem branch is `resourceName`'s) -/
+def resourceNameOv (fs : Fs) (w : OvView) (slash : Bool) (segs : List Seg) : NameOutcome :=
+  if w.v.pkg then
+    match securePath segs with
+    | none => .notFound
+    | some path =>
+      let rp := pkgResourcePath w.v.docroot path
+      if pkgIsDir fs w rp then
+        if !slash then .redirect else .name (rstripSlash rp ++ '/' :: w.v.index)
+      else .name rp
+  else resourceName fs w.v slash segs
+
+/-- `find_resource_path` with the override layer -/
+def findResourcePathOv (fs : Fs) (w : OvView) (name : Text) : Option Text :=
+  if w.v.pkg then
+    if pkgExists fs w name && !pkgIsDir fs w name then some (pkgFilename fs w name) else none
+  else findResourcePath fs w.v name
+
+def candidatesOv (fs : Fs) (w : OvView) (name : Text) : List Cand :=
+  (match findResourcePathOv fs w name with
+   | some p => [⟨p, none⟩]
+   | none => []) ++
+  w.v.encs.flatMap fun (e, exts) =>
+    exts.filterMap fun ext => (findResourcePathOv fs w (name ++ ext)).map fun p => ⟨p, some e⟩
+
+/-- the first pkg_resources call, `resource_isdir(pkg, resource_path)`, raises -/
+def raisesFirst (fs : Fs) (w : OvView) (segs : List Seg) : Bool :=
+  w.v.pkg && (match securePath segs with
+              | some path => pkgRaises fs w (pkgResourcePath w.v.docroot path)
+              | none => false)
+
+/-- `get_possible_files` asks about the name and about every `name + ext`: one of these calls raises -/
+def raisesLater (fs : Fs) (w : OvView) (n : Text) : Bool :=
+  w.v.pkg && (n :: w.v.encs.flatMap fun (_, exts) => exts.map fun ext => n ++ ext).any (pkgRaises fs w)
+
+/-- `static_view.__call__` with the override layer -/
+def staticViewOv (fs : Fs) (w : OvView) (ae : Option (List Enc)) (slash : Bool) (segs : List Seg) : Outcome :=
+  if raisesFirst fs w segs then .valueError
+  else
+  match resourceNameOv fs w slash segs with
+  | .notFound => .notFound
+  | .redirect => .redirect
+  | .name n =>
+    if raisesLater fs w n then .valueError
+    else
+    let files := sortBySize fs.size (candidatesOv fs w n)
     match findBestMatch ae files with
     | none => .notFound
     | some c =>
@@ -230,6 +371,23 @@ def servePlain (fs : Fs) (v : View) (ae : Option (List Enc)) (wsgi : Bytes) : Ou
   | some t =>
     if traversalReaches (splitPathInfo (if t = [] then ['/'] else t)) then
       staticView fs v ae (endsWithSlash t) (splitPathInfo t)
+    else .notFound
+
+/-- the two router mountings with the override layer -/
+def serveSubOv (fs : Fs) (w : OvView) (ae : Option (List Enc)) (pfx : Text) (wsgi : Bytes) : Outcome :=
+  match decodePathInfo wsgi with
+  | none => .urlDecodeError
+  | some t =>
+    match routeRemainder pfx (if t = [] then ['/'] else t) with
+    | none => .notFound
+    | some rest => staticViewOv fs w ae (endsWithSlash t) (splitPathInfo rest)
+
+def servePlainOv (fs : Fs) (w : OvView) (ae : Option (List Enc)) (wsgi : Bytes) : Outcome :=
+  match decodePathInfo wsgi with
+  | none => .urlDecodeError
+  | some t =>
+    if traversalReaches (splitPathInfo (if t = [] then ['/'] else t)) then
+      staticViewOv fs w ae (endsWithSlash t) (splitPathInfo t)
     else .notFound
 
 /-- `static_view(root, use_subpath=True)(context, request)` with `request.subpath = segs` -/
